@@ -6,6 +6,10 @@ ALL = ["C%02d" % i for i in range(1, 21)]
 
 # id -> (technique, level text, level note, design ref)
 CLAIMED = {
+ "C18": ("property-based testing (rapid): metamorphic relations between switch-off and switch-on results (one switch vs random setting of the others) and equality across equivalent entry points",
+         "For each configuration switch a generated input is processed twice, with the switch off and on, under a random setting of all other switches, and the documented relation between the two results is checked (plus identity when the input lacks the feature); the convenience entry points and setter methods are compared with the corresponding frozen Config. Exploration.",
+         "Trusted: encoding/json (HTMLEscape, Indent, Compact, DisallowUnknownFields), harness/ref.",
+         "DESIGN.md §7 C18"),
  "C17": ("property-based testing (rapid): generated value streams x chunk plans x injected reader/writer faults, checked against per-value encoding/json results and an explicit terminal-condition oracle",
          "Generated streams are fed to the stream decoder through a reader that splits them according to a drawn chunk plan (single bytes, empty reads, data together with EOF, sizes around the buffer growth points) and optionally fails with a sentinel; values, progress (InputOffset), the number of successes and the terminal condition are checked. The stream encoder is driven with short and failing writers. Exploration.",
          "Trusted: encoding/json for each value; the harness's chunkReader/faultyWriter follow the io.Reader/io.Writer contracts.",
